@@ -160,7 +160,7 @@ func c16TransportOpts(kind, mode string, opening []byte, seed uint64) ([]util.Op
 			return &c16Conn{peer: a.c, cleanup: func() { _ = a.c.Close(); l.Close() }}, nil
 		}, nil
 	case "standard":
-		srv, err := sim.NewSSHServer(seed)
+		srv, err := sim.NewC16SSHServer(seed)
 		if err != nil {
 			return nil, nil, err
 		}
@@ -187,7 +187,7 @@ func c16TransportOpts(kind, mode string, opening []byte, seed uint64) ([]util.Op
 	case "openssh":
 		// the system transport with the real OpenSSH client (`ssh` from PATH) talking to the in-process
 		// server; authentication is in-channel (password prompt on the pty)
-		srv, err := sim.NewSSHServer(seed)
+		srv, err := sim.NewC16SSHServer(seed)
 		if err != nil {
 			return nil, nil, err
 		}
@@ -1049,7 +1049,7 @@ func runC16(c *ctx) {
 		default:
 			res.Count("readsize:8192-65536")
 		}
-		res.Count(fmt.Sprintf("reads-per-case:%s", bucket(len(o.reads))))
+		res.Count(fmt.Sprintf("reads-per-case:%s", c16bucket(len(o.reads))))
 		if o.dur > slowest {
 			slowest = o.dur
 		}
@@ -1075,7 +1075,7 @@ func runC16(c *ctx) {
 	res.Note("phases: lock skeleton %v, sessions %v", tS.Sub(tL).Round(time.Millisecond), time.Since(tS).Round(time.Millisecond))
 }
 
-func bucket(n int) string {
+func c16bucket(n int) string {
 	switch {
 	case n <= 2:
 		return "<=2"
